@@ -43,7 +43,9 @@ class Population:
         return [Individual(genome, self.problem, fitness) for genome, fitness in zip(self.genomes, self.fitnesses)]
 
     def topk(self, k: int) -> "Population":
-        topk_indices = np.argsort(self.fitnesses)[-k:] if self.problem.maximize else np.argsort(self.fitnesses)[:k]
+        # Counted from the front also for maximisation: [-k:] is the whole array when k == 0 (no elites).
+        first = max(self.size - k, 0)
+        topk_indices = np.argsort(self.fitnesses)[first:] if self.problem.maximize else np.argsort(self.fitnesses)[:k]
         return Population(self.genomes[topk_indices], self.fitnesses[topk_indices], self.problem)
 
     def merge(self, other: "Population") -> "Population":
